@@ -181,6 +181,15 @@ def build_witnesses(tier: str) -> List[Witness]:
     both = enum_for("EnumString", base_variants("EnumString"), "#[strum(parse_err_ty = MyErr, parse_err_fn = my_err)]\n")
     W.append(_mk("lone_parse_err_ty", "only one of parse_err_ty / parse_err_fn", "EnumString", enum_for("EnumString", base_variants("EnumString"), "#[strum(parse_err_ty = MyErr)]\n"), both))
     W.append(_mk("lone_parse_err_fn", "only one of parse_err_ty / parse_err_fn", "EnumString", enum_for("EnumString", base_variants("EnumString"), "#[strum(parse_err_fn = my_err)]\n"), both))
+    dflt = "    Alpha,\n    #[strum(default)]\n    Other(String),"
+    both_d = enum_for("EnumString", dflt, "#[strum(parse_err_ty = MyErr, parse_err_fn = my_err)]\n")
+    W.append(_mk("lone_parse_err_ty_with_default", "only one of parse_err_ty / parse_err_fn", "EnumString", enum_for("EnumString", dflt, "#[strum(parse_err_ty = MyErr)]\n"), both_d, "with a default variant"))
+    W.append(_mk("lone_parse_err_fn_with_default", "only one of parse_err_ty / parse_err_fn", "EnumString", enum_for("EnumString", dflt, "#[strum(parse_err_fn = my_err)]\n"), both_d, "with a default variant"))
+    # 10b. placeholders that reach a unit variant's name through serialize (no to_string)
+    W.append(_mk("placeholder_unit_serialize", "placeholders on a unit variant", "Display",
+                 enum_for("Display", '    #[strum(serialize = "point at {x}")]\n    Alpha,\n    Beta(u8),'), enum_for("Display", '    #[strum(serialize = "point at x")]\n    Alpha,\n    Beta(u8),'), "via serialize"))
+    W.append(_mk("placeholder_unit_serialize_longest", "placeholders on a unit variant", "Display",
+                 enum_for("Display", '    #[strum(serialize = "p", serialize = "long {0} name")]\n    Alpha,\n    Beta,'), enum_for("Display", '    #[strum(serialize = "p", serialize = "long name")]\n    Alpha,\n    Beta,'), "via the longest serialize"))
     # 13. unsupported property literal
     for nm, lit in (("float", "1.5"), ("char", "'c'"), ("byte", "b'x'"), ("bytestr", 'b"xy"')):
         W.append(_mk("prop_literal_" + nm, "unsupported property literal", "EnumProperty",
